@@ -146,8 +146,13 @@ Definition common_lock (f1 f2 : list loc * list loc * list lock) : bool :=
    GSync   = a synchronisation object (mutex, cond, semaphore, single-flight group);
    GOwn    = pointer/interface to an object with its own internal synchronisation,
              the field itself is GConst;
-   G<lock> = read and written only while holding that lock (the steps' footprints
-             use the location of that class: LLog / LBuffer / LCache / LMap);
+   G<lock> = read AND written only while holding that lock (the steps' footprints
+             use the location of that class: LLog / LBuffer / LCache / LMap); every Go
+             map field is in this class -- a map read concurrent with a map write is a
+             race (and can crash), so e.g. handler.logs needs logMu.RLock for the
+             fast-path lookup AND for the double-check inside the single-flight
+             initialiser (steps ALookup and ABeginInit hold KMap): single-flight
+             serialises per key only, initialisers of different partitions overlap;
    GUnguarded = written after construction without a lock: NOT allowed (C41_fields_guarded). *)
 Inductive guard := GConst | GSync | GOwn | GMu | GBufMu | GCacheMu | GLogMapMu | GAuthLogMu | GUnguarded.
 
